@@ -112,8 +112,13 @@ pub enum Op {
     /// PUBREL for the oldest QoS 2 publish of `c` that has not been released
     Release { c: usize, notify: bool },
     Ping { c: usize, notify: bool },
-    /// MQTT DISCONNECT packet
-    Disconnect { c: usize, notify: bool },
+    /// MQTT DISCONNECT packet (`with_props`: a v5 client's DISCONNECT carrying properties)
+    Disconnect {
+        c: usize,
+        notify: bool,
+        #[serde(default)]
+        with_props: bool,
+    },
     /// what the network task does when the socket fails: Event::Disconnect
     DropLink { c: usize },
     Notify { c: usize },
